@@ -4,7 +4,7 @@ from common import *
 from kern_common import *
 
 TRI_KINDS = ['random', 'integer', 'graded', 'zerosub', 'repeated', 'wilkinson', 'zero', 'tiny', 'huge', 'nearzero']
-HESS_KINDS = ['random', 'integer', 'graded', 'deflated', 'companion', 'jordan', 'rotation', 'zero', 'smallscale', 'bigscale', 'symmetric']
+HESS_KINDS = ['random', 'integer', 'graded', 'deflated', 'companion', 'jordan', 'rotation', 'zero', 'smallscale', 'bigscale', 'symmetric', 'tieblock']
 
 
 def tri_case(rng, n, kind, eps):
@@ -56,6 +56,20 @@ def hess_case(rng, n, kind):
                 H[j + 2][j + 1] = rng.choice([0.0, rnd(rng)])
         if n % 2:
             H[n - 1][n - 1] = rnd(rng)
+    elif kind == 'tieblock':
+        # 2x2 diagonal blocks [a b; c d] with c != 0 and ((a - d)/2)^2 + b c == 0 EXACTLY (a repeated, defective real eigenvalue with
+        # exactly representable data), cut off by exact zero sub-diagonals, at a power-of-two scale; the rest random
+        H = hess_matrix(rng, n, 'random'); sc = 2.0 ** rng.range(-3, 3)
+        j = rng.below(2)
+        while j + 1 < n:
+            h = float(rng.range(1, 3)) * (1 if rng.below(2) else -1); d = float(rng.range(-3, 3)); a = d + 2 * h
+            b, c = (h, -h) if rng.below(2) else (h * h, -1.0)
+            H[j][j] = a * sc; H[j + 1][j + 1] = d * sc; H[j + 1][j] = b * sc; H[j][j + 1] = c * sc      # H[col][row]
+            if j + 2 < n:
+                H[j + 1][j + 2] = 0.0
+            if j > 0:
+                H[j - 1][j] = 0.0
+            j += 2 + rng.below(3)
     elif kind == 'zero':
         pass
     elif kind in ('smallscale', 'bigscale'):
@@ -75,8 +89,8 @@ def run(ck, replay=None):
                'exact zero sub-diagonals, repeated eigenvalues, Wilkinson, zero, 1e-290 / 1e150 scalings, sub-diagonals at the deflation threshold +-3 ulp), n = 2..24; '
                'UpperHessenbergEigen<double>: eigenvalues recomputed by the model from the Schur factor T and the scale, compared as bit patterns; predicate slice: '
                'T Z = Z D, Z\'Z = I, U T U\' = H, U\'U = I, T quasi-triangular with complex-pair 2x2 blocks only, unit-norm eigenpairs with small residual, value conventions, '
-               'in float/double/long double on 11 Hessenberg families (random, integer, graded, deflated, companion, Jordan-like defective, rotation blocks with repeated '
-               'pairs, zero, 1e-140 / 1e140 scalings, symmetric), n = 2..64; non-trivial = n >= 3; distinct by case line')
+               'in float/double/long double on 12 Hessenberg families (random, integer, graded, deflated, companion, Jordan-like defective, rotation blocks with repeated '
+               'pairs, zero, 1e-140 / 1e140 scalings, symmetric, isolated 2x2 blocks with an exactly zero discriminant), n = 2..64; non-trivial = n >= 3; distinct by case line')
     bad = grep_gate()
     ck.oblige('no Admitted/Axiom/Parameter/disabled checks in the development', not bad, '; '.join(bad))
     with cf.ThreadPoolExecutor(3) as ex:
